@@ -102,6 +102,8 @@ def run(chk: Check) -> None:
     codec_state(chk, "R07.5")
     no_result_caches(chk, "R07.5")
     value_passthrough(chk, "R07.5")
+    from .purity import decoded_passthrough
+    decoded_passthrough(chk, "R07.5")
     encode_stream(chk, "R07.5")
     from .c15 import bracket_matching
     bracket_matching(chk, "R07.6")
